@@ -10,7 +10,7 @@ ANCHORS = ['txtorcon/circuit.py', 'txtorcon/stream.py', 'txtorcon/torstate.py', 
 RULE = ('the C07 histories (snapshot + 10-60 events Tor can emit) crossed with: listeners 1..4 registered for all circuits / all streams before '
         'the snapshot or at any position, per-object listen/unlisten at any position (also on objects that appeared earlier and on closed ones), '
         'listeners that stop listening from inside a notification; when_built / when_closed / Circuit.close / Stream.close requested at any '
-        'position (before, between and after the deciding events, repeatedly, on closed objects), and the answers to CLOSECIRCUIT / CLOSESTREAM '
+        'position (before, between and after the deciding events, repeatedly, on closed objects, and again from inside the callback of the same request at the moment it completes), and the answers to CLOSECIRCUIT / CLOSESTREAM '
         'delivered before or after the CLOSED event, accepted or rejected. Compared after every operation: every notification (listener, kind, '
         'object, router / circuit argument, flags in both letter cases), every Deferred created and fired (and with which outcome), all command '
         'lines. non-trivial = at least 3 notifications delivered and one wait requested; distinct = distinct cases')
@@ -20,7 +20,7 @@ ASSUMPTIONS = ["H: as C07, and unlisten is only called by a listener that is lis
 
 def tagger(c, im):
     n_notif = sum(1 for t in im for o in t['outs'] if o[0] == 'n')
-    waits = [op[0] for op in c['ops'] if op[0] in ('wb', 'wc', 'cc', 'cs')]
+    waits = [op[0] for op in c['ops'] if op[0] in ('wb', 'wc', 'cc', 'cs', 'wbr', 'wcr', 'ccr', 'csr')]
     fired = sum(1 for t in im for o in t['outs'] if o[0] == 'f')
     quits = any(op[0] in ('circ', 'strm') and op[2] for op in c['ops'])
     return (sorted(set(waits)) + ['fired=%d' % min(fired, 3), 'quit-in-callback' if quits else 'no-quit',
@@ -59,6 +59,23 @@ def corpus():
         {'snap_c': ['5 BUILT %s PURPOSE=GENERAL' % r1], 'snap_s': ['1 SUCCEEDED 5 example.com:80'], 'pre': [],
          'ops': [['cs', 0], ['ack', True], ['strm', '1 DETACHED 5 example.com:80 REASON=TIMEOUT', [], None], ['cs', 0],
                  ['strm', '1 CLOSED 0 example.com:80 REASON=DONE', [], None]]},
+        # the same request made again from inside the callback of the first (`..r`): a close repeated while the CLOSED / FAILED line
+        # is being processed shares the pending close (no second command); either order of acknowledgement and event
+        {'snap_c': ['5 BUILT %s PURPOSE=GENERAL' % r1], 'snap_s': [], 'pre': [],
+         'ops': [['ccr', 0], ['ack', True], ev('5 CLOSED %s PURPOSE=GENERAL REASON=REQUESTED' % r1)]},
+        {'snap_c': ['5 BUILT %s PURPOSE=GENERAL' % r1], 'snap_s': [], 'pre': [],
+         'ops': [['ccr', 0], ['ack', True], ['cc', 0], ev('5 FAILED %s PURPOSE=GENERAL REASON=DESTROYED' % r1)]},
+        {'snap_c': ['5 BUILT %s PURPOSE=GENERAL' % r1], 'snap_s': [], 'pre': [],
+         'ops': [['ccr', 0], ev('5 CLOSED %s PURPOSE=GENERAL REASON=REQUESTED' % r1), ['ack', True]]},
+        {'snap_c': ['5 BUILT %s PURPOSE=GENERAL' % r1], 'snap_s': ['1 SUCCEEDED 5 example.com:80'], 'pre': [],
+         'ops': [['csr', 0], ['ack', True], ['strm', '1 CLOSED 5 example.com:80 REASON=DONE', [], None]]},
+        {'snap_c': ['5 BUILT %s PURPOSE=GENERAL' % r1], 'snap_s': ['1 SUCCEEDED 5 example.com:80'], 'pre': [],
+         'ops': [['cs', 0], ['csr', 0], ['strm', '1 FAILED 5 example.com:80 REASON=TIMEOUT', [], None], ['ack', True]]},
+        {'snap_c': [], 'snap_s': [], 'pre': [],
+         'ops': [ev('5 LAUNCHED PURPOSE=GENERAL'), ['wbr', 0], ['wcr', 0], ev('5 BUILT %s PURPOSE=GENERAL' % r1), ['wbr', 0],
+                 ev('5 CLOSED %s PURPOSE=GENERAL REASON=FINISHED' % r1), ['wcr', 0], ['wbr', 0]]},
+        {'snap_c': [], 'snap_s': [], 'pre': [],
+         'ops': [ev('8 LAUNCHED PURPOSE=GENERAL'), ['wbr', 0], ['wcr', 0], ev('8 FAILED PURPOSE=GENERAL REASON=TIMEOUT')]},
         # a wait requested after a circuit was BUILT and later CLOSED succeeds like the earlier ones
         {'snap_c': [], 'snap_s': [], 'pre': [],
          'ops': [ev('5 LAUNCHED PURPOSE=GENERAL'), ['wb', 0], ev('5 BUILT %s PURPOSE=GENERAL' % r1), ev('5 CLOSED %s PURPOSE=GENERAL REASON=FINISHED' % r1), ['wb', 0], ['wc', 0]]},
@@ -72,7 +89,8 @@ def corpus():
 def gen_cases(rng, tier):
     n = 250 if tier == 'quick' else 12000
     for k in range(n):
-        yield tsprop.gen_case(rng, n_ops=rng.choice([10, 25, 60]), listeners=True, waits=True, attach=False, weird=(k % 10 == 9))
+        yield tsprop.gen_case(rng, n_ops=rng.choice([10, 25, 60]), listeners=True, waits=True, attach=False, weird=(k % 10 == 9),
+                              reenter=(k % 3 == 1 and k % 10 != 9))
 
 
 def classify(r):
